@@ -71,8 +71,17 @@ struct Agg {
 
 Agg agg;
 Case last_fail; std::string last_fail_msg; bool have_fail = false;
-std::string g_out, g_faildir = ".";
+std::string g_out, g_faildir = ".", g_stopfile;
 bool g_verbose = false;
+// another worker of the same check has already confirmed and stored a failure: finish quickly
+// (further cases / shrink candidates are skipped; a failure found by THIS worker is still reported)
+bool g_stop = false; unsigned g_stop_poll = 0;
+bool stop_requested() {
+    if (g_stop) return true;
+    if (g_stopfile.empty() || (++g_stop_poll & 15)) return false;
+    if (access(g_stopfile.c_str(), F_OK) == 0) g_stop = true;
+    return g_stop;
+}
 
 void note_fail(const Case &c, const Result &r) {
     last_fail = c; last_fail_msg = r.msg; have_fail = true;
@@ -127,6 +136,7 @@ bool zero_run(const std::vector<uint8_t> &prog, const std::vector<uint8_t> &faul
 }
 
 void rc_case_body(bool uses_schedule, unsigned maxlen) {
+    if (stop_requested()) return;
     Case c;
     c.prog = *progGen(maxlen);
     if (uses_schedule) {
@@ -161,6 +171,7 @@ void rc_case_body(bool uses_schedule, unsigned maxlen) {
 
 // systematic: every 1-preemption schedule of a generated program (+ sampled 2-preemption)
 void sweep_case_body(unsigned maxlen, int pairs) {
+    if (stop_requested()) return;
     std::vector<uint8_t> prog = *progGen(maxlen);
     Result r0; Case c0; uint32_t N = 0;
     if (!zero_run(prog, {}, N, &r0, &c0)) RC_FAIL(last_fail_msg);
@@ -313,6 +324,7 @@ int main(int argc, char **argv) {
         else if (a == "--faildir") g_faildir = next();
         else if (a == "--watchdog") rt::g_watchdog_s = atoi(next().c_str());
         else if (a == "--batch") rt::g_batch = atoi(next().c_str());
+        else if (a == "--stopfile") g_stopfile = next();
         else if (a == "-v") g_verbose = true;
         else files.push_back(a);
     }
@@ -370,8 +382,9 @@ int main(int argc, char **argv) {
         }
         if (!ok) {
             if (have_fail) {
-                Failure f = confirm_and_store(last_fail, last_fail_msg, true);
+                Failure f = confirm_and_store(last_fail, last_fail_msg, !g_stop);
                 agg.failures.push_back(f);
+                if (!f.flaky && !g_stopfile.empty()) { FILE *sf = fopen(g_stopfile.c_str(), "w"); if (sf) fclose(sf); }
                 printf("%s %s: %s\n", f.flaky ? "FLAKY" : "FAILURE", f.path.c_str(), f.msg.c_str());
             } else {
                 Failure f; f.path = ""; f.msg = "rapidcheck reported failure without a failing case (generator problem)"; f.code = -1; f.flaky = true;
